@@ -326,12 +326,11 @@ class Operator:
         env = self.env
         self.stop_flag = asyncio.Event()
         self.ready_flag = asyncio.Event()
-        kwargs = dict(clusterwide=True)
+        kwargs = dict(clusterwide=True, identity=self.opid)
         kwargs.update(self.kwargs)
         try:
             await kopf.operator(registry=self.registry, settings=self.settings, memories=self.memories,
-                                stop_flag=self.stop_flag, ready_flag=self.ready_flag,
-                                identity=self.opid, **kwargs)  # type: ignore[arg-type]
+                                stop_flag=self.stop_flag, ready_flag=self.ready_flag, **kwargs)  # type: ignore[arg-type]
         except asyncio.CancelledError:
             env.log('operator-exit', op=self.opid, how='cancelled')
             raise
